@@ -63,8 +63,9 @@ func c06MintedKeys(c *Ctx) {
 		if base == nil {
 			base = defaultInline
 		}
-		cfg.Inline = c.storageReaching(base)
-		ex := c.Explore(en.fn, cfg, en.tag+"-storage")
+		// helpers that mint (and return the pair in a struct) are traversed as well
+		cfg.Inline = c.orRefs(c.storageReaching(base), base, ".GenerateAccessToken", ".GenerateRefreshToken", ".GenerateAuthorizeCode", ".GenerateDeviceCode", ".GenerateUserCode")
+		ex := c.Explore(en.fn, cfg, en.tag+"-storage-mint")
 		if !c.complete(ex, rule, en.role, en.fn) {
 			continue
 		}
@@ -160,7 +161,8 @@ func c06SecretLength(c *Ctx) {
 	const rule, role = "C06.R2", "hmac-secret-readers"
 	n := 0
 	for _, fn := range c.P.MethodsOf(pkgHMAC, "HMACStrategy") {
-		if fn.Name() == "Generate" || fn.Name() == "Validate" || !c.P.RefsMethod(fn, 0, ".GetGlobalSecret") {
+		// the exported API only: unexported helpers (a secrets collector, say) are judged through their callers
+		if fn.Name() == "Generate" || fn.Name() == "Validate" || fn.Object() == nil || !fn.Object().Exported() || !c.P.RefsMethod(fn, 2, ".GetGlobalSecret") {
 			continue
 		}
 		ex := c.Explore(fn, hmacCfg(), "hmac")
